@@ -340,8 +340,15 @@ func (c08) Eval(t *testing.T, c *Case, dec func(int) *Decider) *Outcome {
 			if y := pre.ProcYields[0]; y > 1 {
 				r := Sub(c.Seed, "stmtcancel")
 				n := 1 + r.Intn(2)
+				inStmt := c08StmtYields(pre, &meta)
 				for i := 0; i < n; i++ {
-					sc.Cancels = append(sc.Cancels, CancelSpec{Proc: 0, AtYield: 1 + r.Intn(y), Stmt: true})
+					at := 1 + r.Intn(y)
+					if len(inStmt) > 0 && r.Bool(0.7) {
+						// most yields of a session belong to loads and dumps: aim at the
+						// evaluation of the data-changing statements themselves
+						at = inStmt[r.Intn(len(inStmt))]
+					}
+					sc.Cancels = append(sc.Cancels, CancelSpec{Proc: 0, AtYield: at, Stmt: true})
 				}
 			}
 		}
@@ -574,4 +581,56 @@ func mentions(src, tb string) bool {
 		}
 	}
 	return false
+}
+
+// c08StmtYields returns the yield numbers (of process 0, in a run without
+// cancellations) that lie inside the execution of the data-changing statements,
+// found by matching the scheduler step of every "@S i" marker with the steps
+// of the event log.
+func c08StmtYields(pre *RunResult, meta *c08Meta) []int {
+	type span struct{ from, to int64 }
+	var spans []span
+	var marks []OutStamp
+	for _, st := range pre.Procs[0].Stamps {
+		if strings.HasPrefix(st.Text, "@S ") {
+			marks = append(marks, st)
+		}
+	}
+	for mi, mk := range marks {
+		var i, rep int
+		if _, err := fmt.Sscanf(mk.Text, "@S %d.%d", &i, &rep); err != nil || i >= len(meta.Steps) || meta.Steps[i].Kind != "stmt" {
+			continue
+		}
+		if strings.HasPrefix(meta.Steps[i].Src, "COMMIT") || strings.HasPrefix(meta.Steps[i].Src, "DECLARE") {
+			continue
+		}
+		to := int64(1) << 62
+		if mi+1 < len(marks) {
+			to = marks[mi+1].Step
+		}
+		spans = append(spans, span{mk.Step, to})
+	}
+	var out []int
+	var step int64
+	y := 0
+	for _, l := range pre.Log {
+		switch {
+		case strings.HasPrefix(l, "at g") || strings.HasPrefix(l, "ev g"):
+			if strings.Contains(l, " p0 ") {
+				y++
+				for _, sp := range spans {
+					if step >= sp.from && step < sp.to {
+						out = append(out, y)
+						break
+					}
+				}
+			}
+		default:
+			var n int64
+			if _, err := fmt.Sscanf(l, "%d ", &n); err == nil {
+				step = n
+			}
+		}
+	}
+	return out
 }
